@@ -466,6 +466,8 @@ class SimNet:
             "clock_jumps": 0, "frames_read": 0, "frames_written": 0, "use_after_close": 0,
         }
         self.round_sigs = set()
+        self.probe_rounds = set()             # rounds in which the manager refreshed its writable snapshot
+        self.probe_seq = {}                   # round -> event seq of that refresh
         self.logging_on = True
 
     def _next_idx(self):
